@@ -12,8 +12,44 @@ import (
 
 	"github.com/openGemini/openGemini/engine/hybridqp"
 	"github.com/openGemini/openGemini/lib/util/lifted/influx/influxql"
+	"github.com/openGemini/openGemini/lib/util/lifted/influx/query"
+	internal "github.com/openGemini/openGemini/lib/util/lifted/influx/query/proto"
+	"google.golang.org/protobuf/proto"
 	"verifharness/internal/gen"
 )
+
+// The texts are produced by the REAL encoders of the shipping path (EncodeQuerySchema, EncodeSource,
+// ProcessorOptions.MarshalBinary), not by calling String() here: a tree may print differently on the shipping path.
+
+// fieldsCatalog: just enough of a schema for EncodeQuerySchema (it reads the query fields, column names and unnests)
+type fieldsCatalog struct {
+	hybridqp.Catalog
+	fields influxql.Fields
+}
+
+func (c *fieldsCatalog) GetQueryFields() influxql.Fields { return c.fields }
+func (c *fieldsCatalog) GetColumnNames() []string        { return nil }
+func (c *fieldsCatalog) GetUnnests() influxql.Unnests    { return nil }
+
+func shippedFields(fs influxql.Fields) string {
+	return query.EncodeQuerySchema(&fieldsCatalog{fields: fs}).QueryFields
+}
+
+func shippedSource(src influxql.Source) string {
+	return query.EncodeSource([]influxql.Source{src})[0]
+}
+
+func shippedSortFields(sf influxql.SortFields) string {
+	buf, err := (&query.ProcessorOptions{SortFields: sf}).MarshalBinary()
+	if err != nil {
+		panic(err)
+	}
+	pb := &internal.ProcessorOptions{}
+	if err := proto.Unmarshal(buf, pb); err != nil {
+		panic(err)
+	}
+	return pb.GetSortFields()
+}
 
 // ---------------------------------------------------------------------------------------------- structure dumps
 
@@ -370,7 +406,7 @@ func stmtPieces(st *influxql.SelectStatement) []piece {
 	{
 		p := piece{What: "fields", A: dumpFields(st.Fields)}
 		protect(&p, func() {
-			p.Printed = st.Fields.String()
+			p.Printed = shippedFields(st.Fields)
 			back, err := hybridqp.ParseFields(p.Printed)
 			if err != nil {
 				p.Err = err.Error()
@@ -387,7 +423,7 @@ func stmtPieces(st *influxql.SelectStatement) []piece {
 		for _, state := range []string{"fresh", "from"} {
 			p := piece{What: what + "@" + state, A: dumpSource(src)}
 			protect(&p, func() {
-				p.Printed = src.String()
+				p.Printed = shippedSource(src)
 				if state == "fresh" {
 					_, _ = influxql.ParseSortFields("a DESC") // a keyword after ON: the mode a new scanner starts in
 				} else {
@@ -422,7 +458,7 @@ func stmtPieces(st *influxql.SelectStatement) []piece {
 		}
 		p := piece{What: "sortfields", A: sfd(st.SortFields)}
 		protect(&p, func() {
-			p.Printed = st.SortFields.String()
+			p.Printed = shippedSortFields(st.SortFields)
 			back, err := influxql.ParseSortFields(p.Printed)
 			if err != nil {
 				p.Err = err.Error()
